@@ -2,7 +2,7 @@
    Only theorem statements, closed by [exact <lemma>], non-vacuity Examples and
    Print Assumptions.  [fs] is the torrent's file list (path id, size), [L] the
    piece length; offsets are prefix sums of the sizes ([offset_of]). *)
-From Torf Require Import Base Extracted Geometry GeometryProofs.
+From Torf Require Import Base Extracted Geometry Stream GeometryProofs IterProofs GetPieceProofs.
 Open Scope Z_scope.
 
 Theorem C11_file_position : forall fs k f,
@@ -135,6 +135,22 @@ Proof.
     split; [vm_compute; discriminate|]. eexists. exact zero_length_out_of_range_accepted.
 Qed.
 Print Assumptions C11_zero_length_piece_indexes_refuted.
+
+(* random access: on intact content (every listed file present with its recorded size) get_piece(i) returns
+   exactly the bytes [i*L, min((i+1)*L, size)) of the concatenated files -- for every layout of positive-size
+   files, every piece length, every valid index and every state of the open-handle table *)
+Theorem C11_get_piece : forall d fs L i h,
+  allpos fs -> NoDup fs -> intact d fs -> 0 < L -> 0 <= i -> i * L < total_size fs ->
+  fst (get_piece d h fs L i) = Ok (firstn (Z.to_nat L) (skipn (Z.to_nat (i * L)) (stream_of d fs))).
+Proof. exact get_piece_intact. Qed.
+Print Assumptions C11_get_piece.
+
+(* non-vacuity for C11_get_piece: three files, piece length 4, the last (short) piece *)
+Example C11_get_piece_example :
+  let d := [(1, [1;2;3]%N); (2, [4;5;6;7;8;9;10;11;12;13]%N); (3, [14]%N)] in
+  let fs := [(1, 3); (2, 10); (3, 1)] in
+  fst (get_piece d [] fs 4 3) = Ok [13; 14]%N /\ fst (get_piece d [] fs 4 0) = Ok [1; 2; 3; 4]%N.
+Proof. vm_compute. split; reflexivity. Qed.
 
 (* non-vacuity: a concrete layout meets the hypotheses and exercises a shared
    first piece, an exclusive middle piece and a shared last piece *)
